@@ -669,6 +669,21 @@ Proof.
   - injection E as Ec Ei El; subst c i l. split; [reflexivity|]. split; [left; split; [lia|]; split; [lia | reflexivity] | split; assumption].
 Qed.
 
+(* snmp hands a buffer to its library exactly when it is a well-nested forest *)
+Lemma snmp_accepts_iff dg :
+  snmp_first dg = None <-> (2 <= length dg)%nat /\ wellnested 33 (snmp_buf dg).
+Proof.
+  unfold snmp_first, tlv_lengths_fit. destruct (length dg <? 2)%nat eqn:E.
+  - split; [discriminate | intros [H _]; apply Nat.ltb_lt in E; lia].
+  - apply Nat.ltb_ge in E. destruct (tlv_fit 33 (snmp_buf dg)) eqn:Ef.
+    + split; [intros _; split; [exact E | apply fit_wellnested; exact Ef] | reflexivity].
+    + split; [discriminate | intros [_ H]; apply wellnested_fit in H; congruence].
+Qed.
+
+(* ... and ldap: an accepted envelope is one *)
+Lemma ldap_accepts_wellnested st buf : ldap_envelope st = EOk buf -> wellnested 33 buf.
+Proof. intros H. apply fit_wellnested. exact (proj1 (ldap_envelope_ok st buf H)). Qed.
+
 (* ------------------------------------------------------------------ *)
 (* 8. the full statement (spelled out; Properties.v names it C01_full) *)
 
